@@ -108,10 +108,14 @@ std::string gen_bytes(Src &s, size_t maxlen, bool nul_free) {
 Job gen_query(Src &s, Ctx &c, bool *nontriv) {
     size_t np = (size_t)s.range(0, 12);
     char eq = '=', sep = s.boolean() ? '&' : ';';
+    // where the pairs go: a new table (NULL), the caller's table that already holds entries, or a UNIQUE table
+    int tblmode = (int)s.pick({4, 2, 2});
+    if (np == 1 && s.chance(1, 3)) sep = '\0';                // "no separator": the whole string is one pair
     std::vector<std::pair<std::string, std::string>> pairs;
     std::string q;
     for (size_t i = 0; i < np; i++) {
         std::string n = gen_bytes(s, 40, true), v = gen_bytes(s, 120, true);
+        if (tblmode == 2 && i > 0 && s.chance(1, 3)) n = pairs[(size_t)s.range(0, (long)i - 1)].first;     // repeated name
         // names are trimmed by the parser before decoding: a generated name never starts/ends
         // with a blank *after encoding* (blanks are always escaped), so nothing to avoid here
         pairs.push_back({n, v});
@@ -121,22 +125,30 @@ Job gen_query(Src &s, Ctx &c, bool *nontriv) {
         q += en; q.push_back(eq); q += ev;
         free(en); free(ev);
     }
-    c.op("qparse_queries(%zu pairs, sep='%c', %zu bytes)", np, sep, q.size());
+    size_t nprior = tblmode == 1 ? (size_t)s.range(1, 4) : 0;
+    c.op("qparse_queries(%zu pairs, sep=%s, %zu bytes) into %s", np, sep ? strf("'%c'", sep).c_str() : "NUL", q.size(), tblmode == 0 ? "a new table" : tblmode == 1 ? strf("a table that already holds %zu entries", nprior).c_str() : "a UNIQUE table");
     *nontriv = np >= 2;
-    return [pairs, q, eq, sep, np](Ctx &c) {
+    return [pairs, q, eq, sep, np, tblmode, nprior](Ctx &c) {
         int cnt = -7;
         CStr qb(q);
-        qlisttbl_t *t = qparse_queries(nullptr, qb.p, eq, sep, &cnt);
-        if (!t) c.fail(FUNC, "encode:query-null", "qparse_queries returned NULL");
+        qlisttbl_t *own = tblmode == 0 ? nullptr : qlisttbl(tblmode == 2 ? QLISTTBL_UNIQUE : 0);
+        if (tblmode != 0 && !own) throw CaseStop{"qlisttbl ctor failed"};
+        std::vector<std::pair<std::string, std::string>> want;
+        for (size_t i = 0; i < nprior; i++) { std::string pn = "prior" + std::to_string(i); qlisttbl_putstr(own, pn.c_str(), "pv"); want.push_back({pn, "pv"}); }
+        qlisttbl_t *t = qparse_queries(own, qb.p, eq, sep, &cnt);
+        if (!t) { if (own) qlisttbl_free(own); c.fail(FUNC, "encode:query-null", "qparse_queries returned NULL"); }
         struct G { qlisttbl_t *t; ~G() { qlisttbl_free(t); } } g{t};
-        if (cnt != (int)np) c.fail(FUNC, "encode:query-count", "qparse_queries reports %d entries, the query was assembled from %zu pairs: %s", cnt, np, hexs(q, 80).c_str());
+        if (own && t != own) c.fail(FUNC, "encode:query-table", "qparse_queries did not return the table it was given");
+        // documented: the number of parsed entries - of THIS query, whatever the table held before or merges
+        if (cnt != (int)np) c.fail(FUNC, "encode:query-count", "qparse_queries reports %d entries, the query was assembled from %zu pairs (%s): %s", cnt, np, tblmode == 0 ? "new table" : tblmode == 1 ? "table with earlier entries" : "UNIQUE table", hexs(q, 80).c_str());
+        for (auto &p : pairs) { if (tblmode == 2) for (size_t k = 0; k < want.size();) { if (want[k].first == p.first) want.erase(want.begin() + (long)k); else k++; } want.push_back(p); }
         size_t i = 0;
         for (qlisttbl_obj_t *o = t->first; o; o = o->next, i++) {
-            if (i >= np) c.fail(FUNC, "encode:query-pairs", "more entries than pairs");
-            if (pairs[i].first != o->name || o->size != pairs[i].second.size() + 1 || memcmp(o->data, pairs[i].second.c_str(), o->size) != 0)
-                c.fail(FUNC, "encode:query-pairs", "entry %zu is (%s,%s), the query was built from (%s,%s)", i, hexs(o->name, strlen(o->name)).c_str(), hexs(o->data, o->size).c_str(), hexs(pairs[i].first).c_str(), hexs(pairs[i].second).c_str());
+            if (i >= want.size()) c.fail(FUNC, "encode:query-pairs", "more entries than pairs");
+            if (want[i].first != o->name || o->size != want[i].second.size() + 1 || memcmp(o->data, want[i].second.c_str(), o->size) != 0)
+                c.fail(FUNC, "encode:query-pairs", "entry %zu is (%s,%s), expected (%s,%s)", i, hexs(o->name, strlen(o->name)).c_str(), hexs(o->data, o->size).c_str(), hexs(want[i].first).c_str(), hexs(want[i].second).c_str());
         }
-        if (i != np) c.fail(FUNC, "encode:query-pairs", "parsed %zu entries from %zu pairs", i, np);
+        if (i != want.size()) c.fail(FUNC, "encode:query-pairs", "the table holds %zu entries, expected %zu", i, want.size());
     };
 }
 }  // namespace
